@@ -110,6 +110,11 @@ pub struct Upload {
 }
 
 pub fn gen_upload(g: &mut Rng, secrets: &HashMap<String, String>, small: bool) -> Upload {
+    gen_upload_to(g, secrets, small, None)
+}
+
+/// a correctly chunk-signed upload; `target`: (method, query) of another operation to address instead of PutObject / UploadPart
+pub fn gen_upload_to(g: &mut Rng, secrets: &HashMap<String, String>, small: bool, target: Option<(&str, &str)>) -> Upload {
     let many = if g.chance(1, 8) { 40 } else { 6 };
     let n_chunks = if small { g.usize_below(4) } else { 1 + g.usize_below(many) };
     let mut chunks = Vec::new();
@@ -136,7 +141,11 @@ pub fn gen_upload(g: &mut Rng, secrets: &HashMap<String, String>, small: bool) -
     let bucket = format!("b{}", g.lower_alnum(5));
     let key = format!("k{}", g.alnum(6));
     let uri = if g.chance(1, 3) { format!("/{bucket}/{key}?partNumber={}&uploadId={}", g.range(1, 50), g.alnum(8)) } else { format!("/{bucket}/{key}") };
-    let mut req = RawRequest::new("PUT", &uri).header("host", "s3.verif.example:9000").header("content-encoding", "aws-chunked").header("x-amz-decoded-content-length", &total.to_string());
+    let (method, uri) = match target {
+        Some((m, q)) => (m, if q.starts_with("/k") { format!("/{bucket}{q}") } else { format!("/{bucket}{q}") }),
+        None => ("PUT", uri),
+    };
+    let mut req = RawRequest::new(method, &uri).header("host", "s3.verif.example:9000").header("content-encoding", "aws-chunked").header("x-amz-decoded-content-length", &total.to_string());
     // the encoded length is known before signing
     let enc_len: usize = chunks.iter().chain(std::iter::once(&Vec::new())).map(|c| format!("{:x}", c.len()).len() + 17 + 64 + 2 + c.len() + 2).sum();
     req.headers.push(("content-length".into(), enc_len.to_string().into_bytes()));
